@@ -3,21 +3,24 @@
 import json, os, glob
 V = os.path.dirname(os.path.dirname(os.path.abspath(__file__)))
 rows = []
-for d in sorted(glob.glob(os.path.join(V, "seeded", "C*_m*"))):
+for d in sorted(glob.glob(os.path.join(V, "seeded", "C*_*m[0-9]"))):
     if not os.path.exists(os.path.join(d, "meta.json")):
         continue
     m = json.load(open(os.path.join(d, "meta.json")))
     name = os.path.basename(d)
     det = m.get("detection", {})
+    ev = m.get("earlier_evaluations", [])
+    first = "-" if not ev else (", ".join(ev[0].get("detected_by") or []) or "missed")
     rows.append((name, m.get("title", "")[:110], "yes" if m.get("confirmation", {}).get("confirmed") else "NO",
-                 ", ".join(m.get("detected_by", [])) or "-", "; ".join("%s: %s" % (c, (v.get("violations") or ["-"])[0][:70]) for c, v in det.items() if v.get("exit") == 1)))
+                 first, ", ".join(m.get("detected_by", [])) or "-", "; ".join("%s: %s" % (c, (v.get("violations") or ["-"])[0][:70]) for c, v in det.items() if v.get("exit") == 1)))
 out = ["# Seeded changes and the checks that report them", "",
        "Each change was written by a sub-agent from the text of one property only; `confirmed` = patch applies, the 385 tests of `algopy/` still pass,",
        "the demonstration fails with and passes without the change (tools/seed_eval.py). `detected by` = checks that exit 1 on a worktree with the change.", "",
-       "| change | what it does | confirmed | detected by | first violation signature |", "|---|---|---|---|---|"]
+       "| change | what it does | confirmed | at its first evaluation (if re-evaluated) | detected by (current checks) | first violation signature |", "|---|---|---|---|---|---|"]
 for r in rows:
-    out.append("| %s | %s | %s | %s | %s |" % r)
-n = len(rows); k = sum(1 for r in rows if r[3] != "-")
-out += ["", "%d changes, %d reported by at least one check." % (n, k)]
+    out.append("| %s | %s | %s | %s | %s | %s |" % r)
+n = len(rows); k = sum(1 for r in rows if r[4] != "-")
+missed_first = sum(1 for r in rows if r[3] == "missed")
+out += ["", "%d changes, %d reported by at least one check; %d of them were missed when first evaluated and are reported since the checks were strengthened (m1-m3: first wave, w2*: second, w3*: third wave of sub-agents)." % (n, k, missed_first)]
 open(os.path.join(V, "seeded", "SUMMARY.md"), "w").write("\n".join(out) + "\n")
 print(n, k)
